@@ -647,3 +647,70 @@ func (a *APIServer) DoCall(ctx context.Context, conn *grpc.ClientConn, c APICall
 }
 
 var _ = proto.Marshal
+
+// RunListRace: clients c1 (may access W1 only) and c2 (W2 only) send byte-identical ListAccounts requests - paths [W1], [W2],
+// [W1, W2] - from four connections each at the same time.  Every response is an ApiCall event for the wallet(s) whose accounts it
+// CONTAINS (data: true) - a response that contains nothing of a wallet is reported once per client and wallet (data: false).
+func (a *APIServer) RunListRace(ctx context.Context, ms int, log *Log) {
+	deadline := time.Now().Add(time.Duration(ms) * time.Millisecond)
+	var wg sync.WaitGroup
+	var mu sync.Mutex
+	seen := map[string]int{}
+	report := func(cred, target string, data bool, n int) {
+		key := fmt.Sprintf("%s/%s/%v", cred, target, data)
+		mu.Lock()
+		seen[key]++
+		first := seen[key] == 1
+		mu.Unlock()
+		if first {
+			log.Emit(Ev{"ev": "ApiCall", "id": "race-" + key, "cred": cred, "method": "Lister.ListAccounts", "target": target, "outcome": "response", "data": data,
+				"detail": fmt.Sprintf("concurrent identical listings; %d accounts of the wallet", n)})
+		}
+	}
+	for w := 0; w < 8; w++ {
+		cred := []string{"valid-c1", "valid-c2"}[w%2]
+		conn, err := a.Dial(ctx, cred)
+		if err != nil {
+			continue
+		}
+		wg.Add(1)
+		go func(w int, cred string, conn *grpc.ClientConn) {
+			defer wg.Done()
+			defer conn.Close()
+			cl := pb.NewListerClient(conn)
+			for i := 0; time.Now().Before(deadline); i++ {
+				paths := [][]string{{"W1"}, {"W2"}, {"W1", "W2"}}[i%3]
+				cctx, cancel := context.WithTimeout(ctx, 10*time.Second)
+				res, err := cl.ListAccounts(cctx, &pb.ListAccountsRequest{Paths: paths})
+				cancel()
+				if err != nil {
+					continue
+				}
+				n1, n2 := 0, 0
+				for _, acc := range res.GetAccounts() {
+					if strings.HasPrefix(acc.GetName(), "W1/") {
+						n1++
+					}
+					if strings.HasPrefix(acc.GetName(), "W2/") {
+						n2++
+					}
+				}
+				for _, pth := range paths {
+					if pth == "W1" {
+						report(cred, "c1", n1 > 0, n1)
+					} else {
+						report(cred, "c2", n2 > 0, n2)
+					}
+				}
+			}
+		}(w, cred, conn)
+	}
+	wg.Wait()
+	mu.Lock()
+	total := 0
+	for _, n := range seen {
+		total += n
+	}
+	mu.Unlock()
+	log.Emit(Ev{"ev": "ListRace", "responses": total})
+}
